@@ -105,6 +105,13 @@ var (
 		}
 		return m
 	}()
+	vShuJiu = func() map[string]bool {
+		m := map[string]bool{}
+		for i := 1; i <= 9; i++ {
+			m[LunarUtil.NUMBER[i]+"九"] = true
+		}
+		return m
+	}()
 	vHou = func() map[string]bool {
 		m := map[string]bool{}
 		for _, t := range calendar.JIE_QI {
@@ -171,6 +178,8 @@ var strRules = []rule{
 	r(`(Lunar|Tao|Foto)\.GetDayInChinese`, vDayCN, "DAY"),
 	r(`Lunar\.Get(Jie|Qi|JieQi)`, set(calendar.JIE_QI, []string{""}), "JIE_QI or empty"),
 	r(`JieQi\.(GetName|String)`, vTerm, "JIE_QI"),
+	r(`ShuJiu\.(GetName|String|ToString)`, vShuJiu, "一九..九九"),
+	r(`Fu\.(GetName|String|ToString)`, set([]string{"初伏", "中伏", "末伏"}), "初伏/中伏/末伏"),
 	r(`NineStar\.GetNumber`, set(calendar.NUMBER), "NineStar NUMBER"),
 	r(`NineStar\.GetColor`, set(calendar.COLOR), "NineStar COLOR"),
 	r(`NineStar\.GetWuXing`, set(calendar.WU_XING), "NineStar WU_XING"),
@@ -300,6 +309,7 @@ func judge(c dig.Call) error {
 		}
 		for _, sr := range strRules {
 			if sr.re.MatchString(key) {
+				ruleHits[sr.name]++
 				if sr.vocab != nil && s != "" && !sr.vocab[s] {
 					return fmt.Errorf("%s = %q is not in the published vocabulary %s", c.Path, s, sr.name)
 				}
@@ -450,6 +460,7 @@ var accessors = ev.Register(&ev.P[objCase]{
 })
 
 var calls int64
+var ruleHits = map[string]int64{}
 
 // ------------------------------------------------------------------------------------------
 // utility decoders over their whole domains
@@ -564,11 +575,23 @@ func genObj(t *rapid.T) objCase {
 		dd := rapid.IntRange(1, 8).Draw(t, "hd")
 		h, mi, sec := gen.Time(t)
 		d = ref.DT{Y: y, M: m, D: dd, H: h, Mi: mi, S: sec}
-	case 2: // winter / summer counters
+	case 2: // winter / summer counters, aimed at their first and last days
 		y := gen.Year(t, 2, 9997)
-		m := rapid.SampledFrom([]int{1, 2, 7, 8, 12}).Draw(t, "sm")
+		ts := gen.Terms(y)
+		var j int
+		if rapid.Bool().Draw(t, "winter") {
+			dz := ts[1] // winter solstice of the previous December
+			j = ref.JDN(dz.Y, dz.M, dz.D) + rapid.SampledFrom([]int{-1, 0, 1, 8, 9, 17, 18, 26, 27, 44, 45, 71, 72, 79, 80, 81, 82}).Draw(t, "k9")
+		} else {
+			xz := ts[13] // summer solstice
+			j = ref.JDN(xz.Y, xz.M, xz.D) + rapid.IntRange(18, 70).Draw(t, "kfu")
+		}
+		yy, mm, dd := ref.FromJDN(j)
+		if yy < 1 || yy > 9998 {
+			yy, mm, dd = y, 1, 15
+		}
 		h, mi, sec := gen.Time(t)
-		d = ref.DT{Y: y, M: m, D: rapid.IntRange(1, 28).Draw(t, "sd"), H: h, Mi: mi, S: sec}
+		d = ref.DT{Y: yy, M: mm, D: dd, H: h, Mi: mi, S: sec}
 	default:
 		d = gen.Moment(t)
 	}
@@ -606,5 +629,18 @@ func TestC08(t *testing.T) {
 	utilities.Exhaustive("GetDayYi/Ji 60x60, GetTimeYi/Ji 60x60, GetDayJiShen/XiongSha 24x60, GetXun* 60, FotoUtil.GetXiu 24x30")
 	accessors.Rapid(ev.Share(ev.Pick(1600, 64000)), genObj)
 	ev.Note("shard %d made %d reflective accessor calls", ev.Shard, calls)
+	if ev.Shard == 0 {
+		var ks []string
+		for k := range ruleHits {
+			ks = append(ks, fmt.Sprintf("%s:%d", k, ruleHits[k]))
+		}
+		sort.Strings(ks)
+		ev.Note("vocabulary rule hits on shard 0: %s", strings.Join(ks, " "))
+		for _, sr := range strRules {
+			if sr.vocab != nil && ruleHits[sr.name] == 0 {
+				ev.Infra("vocabulary rule %q matched no accessor (rule table out of date)", sr.name)
+			}
+		}
+	}
 	_ = sort.Strings
 }
